@@ -10,6 +10,7 @@ import Lemmas.QuadTreeWrapFuel
 import Lemmas.QuadTreeOrder
 import Lemmas.QuadTreeFuelRatTree
 import Lemmas.QuadTreeFuelRatIndep
+import Lemmas.QuadTreeFuelSound
 /-! # C07 — QuadTree queries return exactly what a linear scan of the stored nodes would
 
 Property theorems only.  `QT.Tree` / `QT.Node` are the executable model of `collection/quadtree` (`Model/QuadTree.lean`)
@@ -462,12 +463,13 @@ theorem int64_queries (fuel : Nat) (k : Int) (ops : List (Op (Rect Int64))) (hop
     sym (key _ _ _ _ (fun r h => ix r h.safe) (fun it h => by simp only [Item.map_rect, c2 _ h.safe]; rfl))⟩
 
 /-- **the property for Go's `int`, stated with the machine's own predicates**: if every object's bounds are a non-empty
-    rectangle inside the box `[-2^60, 2^60]²`, then after any history (contract `OpOK`) `Size`/`All` of the
+    rectangle inside the box `[-2^60, 2^60]²` or an `Empty` rectangle that does not wrap (`QT.DBounds`; `Insert` ignores
+    those), then after any history (contract `OpOK`) `Size`/`All` of the
     machine-integer tree report the specification's multiset and the four `Find*` families return exactly the stored
     nodes whose bounds satisfy `geom`'s predicate AS THE MACHINE EVALUATES IT (`Geom.Rect Int64`), for every point and
     every query rectangle that does not wrap.  (Matched and boolean forms: `int64_queries` composed with the theorems
     above.) -/
-theorem int64_linear_scan (bounds : Nat → Rect Int64) (hb : ∀ i, DItem (bounds i)) (fuel : Nat) (k : Int)
+theorem int64_linear_scan (bounds : Nat → Rect Int64) (hb : ∀ i, DBounds (bounds i)) (fuel : Nat) (k : Int)
     (ops : List (Op (Rect Int64))) (hops : ∀ op ∈ ops, OpOK bounds op) (p : Point Int64) (q : Rect Int64) (hq : Safe q) :
     let t := Tree.run fuel k ops
     (ids t.all).Perm (specRun ops) ∧ t.size = ((specRun ops).length : Int) ∧
@@ -502,7 +504,7 @@ theorem int64_linear_scan (bounds : Nat → Rect Int64) (hb : ∀ i, DItem (boun
   · show (ids ((Tree.run fuel k ops).findContainedByRect q)).Perm _; rw [e7]; exact q4
 
 /-- the same for the four matched families (matcher on the node's identity, as the harness uses) -/
-theorem int64_linear_scan_matched (bounds : Nat → Rect Int64) (hb : ∀ i, DItem (bounds i)) (fuel : Nat) (k : Int)
+theorem int64_linear_scan_matched (bounds : Nat → Rect Int64) (hb : ∀ i, DBounds (bounds i)) (fuel : Nat) (k : Int)
     (ops : List (Op (Rect Int64))) (hops : ∀ op ∈ ops, OpOK bounds op) (mi : Nat → Bool) (p : Point Int64)
     (q : Rect Int64) (hq : Safe q) :
     let t := Tree.run fuel k ops
@@ -609,7 +611,7 @@ theorem fuel_irrelevant_int (bounds : Nat → Rect Int) (box : Rect Int) (j : Na
 /-- the same for Go's `int`: for a history whose objects all have non-empty bounds inside `[-2^60, 2^60]²` the tree of the
     machine-integer model is at most 62 levels deep after every prefix, so the driver's fuel (200) is never exhausted
     on the `w` histories inside the box — by `int64_run` the machine tree has the shape of the unbounded one -/
-theorem int64_fuel_suffices (bounds : Nat → Rect Int64) (hb : ∀ i, DItem (bounds i)) (fuel : Nat) (k : Int)
+theorem int64_fuel_suffices (bounds : Nat → Rect Int64) (hb : ∀ i, DBounds (bounds i)) (fuel : Nat) (k : Int)
     (ops : List (Op (Rect Int64))) (hops : ∀ op ∈ ops, OpOK bounds op) (hfuel : 62 < fuel) (n : Nat) :
     (Tree.run fuel k (ops.take n)).fuelOK fuel = true := by
   have hops1 : ∀ op ∈ ops.take n, OpOK bounds op := fun op h => hops op (List.mem_of_mem_take h)
@@ -638,17 +640,19 @@ theorem abs_run_machine :
    fun bounds fuel k ops hops => ⟨(abs_run bounds fuel k ops hops).1, size_run bounds fuel k ops hops⟩⟩
 
 section AnyArithmetic
-variable {α : Type} [LinearOrder α] [Add α] [Sub α] [OfNat α 0]
+variable {α : Type} [LE α] [LT α] [DecidableLE α] [DecidableLT α] [Max α] [Min α] [Add α] [Sub α] [OfNat α 0]
 
-/-- **the queries for ANY arithmetic** (the "floating-point coordinates (whole or fractional)" clause under rounding, and
-    integers under wrap-around): let the coordinates be any linearly ordered type with arbitrary `+`, `-` and halving —
-    `float64` without NaN with its rounding, `int` with its wrap-around.  `geom`'s predicates only compare the computed
-    `X`, `Y`, `Right()`, `Bottom()`, and the quadtree stores a node only below rectangles that `Contains` it by that very
-    predicate, so after any history: `FindContainsPoint` and `FindIntersects` are exactly the linear scan, with no
-    condition; `FindContainsRect` is, if the QUERY — when not `Empty` — has a representable point (`QT.Proper`: `X < Right()`,
-    `Y < Bottom()` as computed); `FindContainedByRect` is, if every STORED rectangle has.  The two conditions are exactly what the known
-    findings violate (a width absorbed by rounding; `X+Width` wrapping negative). -/
-theorem queries_any_arithmetic (half : α → α) (bounds : Nat → Rect α) (fuel : Nat) (k : Int) (ops : List (Op (Rect α)))
+/-- **the queries for ANY arithmetic and almost any comparison** (the "floating-point coordinates (whole or fractional)"
+    clause under rounding, and integers under wrap-around): let the coordinate type have ANY `+`, `-`, halving, `min`,
+    `max`, and a `≤`/`<` satisfying only the three transitivity laws `QT.OrdLaws` (no antisymmetry — `-0`/`+0` —, no
+    totality — NaN —, nothing about `min`/`max`: IEEE-754 comparisons satisfy them for all doubles, machine integers by
+    `ordLawsInt64`).  `geom`'s predicates only compare the computed `X`, `Y`, `Right()`, `Bottom()`, and the quadtree
+    stores a node only below rectangles that `Contains` it by that very predicate, so after any history:
+    `FindContainsPoint` and `FindIntersects` are exactly the linear scan, with no condition;
+    `FindContainsRect` is, if the QUERY — when not `Empty` — has a representable point (`QT.Proper`: `X < Right()`,
+    `Y < Bottom()` as computed); `FindContainedByRect` is, if every STORED rectangle has.  The two conditions are exactly
+    what the known findings violate (a width absorbed by rounding; `X+Width` wrapping negative). -/
+theorem queries_any_arithmetic (O : OrdLaws α) (half : α → α) (bounds : Nat → Rect α) (fuel : Nat) (k : Int) (ops : List (Op (Rect α)))
     (hops : ∀ op ∈ ops, OpOK bounds op) (p : Point α) (q : Rect α) :
     letI : RectOps (Rect α) (Point α) := geomOps half
     let t := Tree.run fuel k ops
@@ -669,17 +673,17 @@ theorem queries_any_arithmetic (half : α → α) (bounds : Nat → Rect α) (fu
     simp only [ids] at h2 b ⊢
     rw [h2] at h1
     exact h1.trans (b.filter _)
-  refine ⟨fin _ _ (fun x it _ hc hf => prune_point_ord x it.rect p hc hf),
-    fin _ _ (fun x it _ hc hf => prune_intersects_ord x it.rect q hc hf),
-    fun hq => fin _ _ (fun x it _ hc hf => prune_containsRect_ord x it.rect q hq hc hf),
-    fun hb => fin _ _ (fun x it hit hc hf => prune_containedBy_ord x it.rect q ?_ hc hf)⟩
+  refine ⟨fin _ _ (fun x it _ hc hf => prune_point_ord O x it.rect p hc hf),
+    fin _ _ (fun x it _ hc hf => prune_intersects_ord O x it.rect q hc hf),
+    fun hq => fin _ _ (fun x it _ hc hf => prune_containsRect_ord O x it.rect q hq hc hf),
+    fun hb => fin _ _ (fun x it hit hc hf => prune_containedBy_ord O x it.rect q ?_ hc hf)⟩
   obtain ⟨e1, e2⟩ := a.keyed it hit
   rw [e1]
   exact hb it.id (by rw [← e1]; exact e2)
 
 /-- the matched families and the eight boolean queries for any arithmetic: same statement as `queries_any_arithmetic` with
     the matcher conjoined; each boolean query is `true` exactly when the linear scan finds a node -/
-theorem queries_any_arithmetic_matched (half : α → α) (bounds : Nat → Rect α) (fuel : Nat) (k : Int)
+theorem queries_any_arithmetic_matched (O : OrdLaws α) (half : α → α) (bounds : Nat → Rect α) (fuel : Nat) (k : Int)
     (ops : List (Op (Rect α))) (hops : ∀ op ∈ ops, OpOK bounds op) (m : Item (Rect α) → Bool) (p : Point α)
     (q : Rect α) :
     letI : RectOps (Rect α) (Point α) := geomOps half
@@ -726,16 +730,16 @@ theorem queries_any_arithmetic_matched (half : α → α) (bounds : Nat → Rect
       cases h4 : List.filter (fun i => f ⟨i, bounds i⟩) (specRun ops) <;> simp_all
   have P := fun (g : Item (Rect α) → Bool) =>
     fin (RectOps.inPt p) (fun it => RectOps.inPt p it.rect && g it)
-      (fun x it _ hc hf => prune_point_ord x it.rect p hc (and1 hf))
+      (fun x it _ hc hf => prune_point_ord O x it.rect p hc (and1 hf))
   have I := fun (g : Item (Rect α) → Bool) =>
     fin (RectOps.intersects · q) (fun it => RectOps.intersects it.rect q && g it)
-      (fun x it _ hc hf => prune_intersects_ord x it.rect q hc (and1 hf))
+      (fun x it _ hc hf => prune_intersects_ord O x it.rect q hc (and1 hf))
   have C := fun (hq : q.empty = false → Proper q) (g : Item (Rect α) → Bool) =>
     fin (RectOps.intersects · q) (fun it => RectOps.contains it.rect q && g it)
-      (fun x it _ hc hf => prune_containsRect_ord x it.rect q hq hc (and1 hf))
+      (fun x it _ hc hf => prune_containsRect_ord O x it.rect q hq hc (and1 hf))
   have D := fun (hb : ∀ i, (bounds i).empty = false → Proper (bounds i)) (g : Item (Rect α) → Bool) =>
     fin (RectOps.intersects · q) (fun it => RectOps.contains q it.rect && g it)
-      (fun x it hit hc hf => prune_containedBy_ord x it.rect q (by
+      (fun x it hit hc hf => prune_containedBy_ord O x it.rect q (by
         obtain ⟨e1, e2⟩ := a.keyed it hit
         rw [e1]; exact hb it.id (by rw [← e1]; exact e2)) hc (and1 hf))
   refine ⟨⟨(P m).1, (P m).2, ?_⟩, ⟨(I m).1, (I m).2, ?_⟩, fun hq => ⟨(C hq m).1, (C hq m).2, ?_⟩,
@@ -748,7 +752,7 @@ theorem queries_any_arithmetic_matched (half : α → α) (bounds : Nat → Rect
 /-- `queries_any_arithmetic` under the package's own contract (`HistOK`: bounds fixed only WHILE a node is stored; an
     object may come back with other bounds), as multisets of stored items: the condition of `FindContainedByRect` is then
     about the rectangles that are stored at the time of the query -/
-theorem queries_hist_any_arithmetic (half : α → α) (fuel : Nat) (k : Int) (ops : List (Op (Rect α))) (p : Point α)
+theorem queries_hist_any_arithmetic (O : OrdLaws α) (half : α → α) (fuel : Nat) (k : Int) (ops : List (Op (Rect α))) (p : Point α)
     (q : Rect α) :
     letI : RectOps (Rect α) (Point α) := geomOps half
     HistOK ([] : List (Item (Rect α))) ops →
@@ -767,10 +771,10 @@ theorem queries_hist_any_arithmetic (half : α → α) (fuel : Nat) (k : Int) (o
       ((Tree.run fuel k ops).find pr f).Perm ((specRunI ops).filter f) :=
     fun pr f hpr => (tree_find_perm_mem bd _ hb pr f hpr).trans (hp.filter f)
   exact ⟨hp, size_okI fuel k ops hops,
-    fin _ _ (fun x it _ hc hf => prune_point_ord x it.rect p hc hf),
-    fin _ _ (fun x it _ hc hf => prune_intersects_ord x it.rect q hc hf),
-    fun hq => fin _ _ (fun x it _ hc hf => prune_containsRect_ord x it.rect q hq hc hf),
-    fun hs => fin _ _ (fun x it hit hc hf => prune_containedBy_ord x it.rect q (hs it (hp.subset hit)) hc hf)⟩
+    fin _ _ (fun x it _ hc hf => prune_point_ord O x it.rect p hc hf),
+    fin _ _ (fun x it _ hc hf => prune_intersects_ord O x it.rect q hc hf),
+    fun hq => fin _ _ (fun x it _ hc hf => prune_containsRect_ord O x it.rect q hq hc hf),
+    fun hs => fin _ _ (fun x it hit hc hf => prune_containedBy_ord O x it.rect q (hs it (hp.subset hit)) hc hf)⟩
 
 end AnyArithmetic
 /-- `queries_any_arithmetic` at the machine-integer instance the driver runs (`QT.instI64`), for EVERY history — also
@@ -786,7 +790,7 @@ theorem queries_int64_everywhere (bounds : Nat → Rect Int64) (fuel : Nat) (k :
       (ids (t.findContainsRect q)).Perm ((specRun ops).filter (fun i => (bounds i).contains q))) ∧
     ((∀ i, (bounds i).empty = false → (bounds i).x < (bounds i).right ∧ (bounds i).y < (bounds i).bottom) →
       (ids (t.findContainedByRect q)).Perm ((specRun ops).filter (fun i => q.contains (bounds i)))) :=
-  @queries_any_arithmetic Int64 linearOrderInt64 _ _ _ halfI64 bounds fuel k ops hops p q
+  queries_any_arithmetic ordLawsInt64 halfI64 bounds fuel k ops hops p q
 
 /-- **fuel suffices for exact rational coordinates, every history**: if every inserted non-empty rectangle lies within a
     box and is at least `m` wide, and the box is narrower than `m · 2^j`, then after any history and each of its prefixes
@@ -820,6 +824,28 @@ theorem fuel_irrelevant_rat (bounds : Nat → Rect Rat) (m : Rat) (box : Rect Ra
     Tree.run f k ops = Tree.run f' k ops :=
   run_indepQ bounds m box f f' j k ops hops hbox hw h1 h2
 
+/-- **the instance the driver runs at IEEE doubles** (`QT.instF64`: core Lean's `Float` with its own `≤`, `<`, `min`,
+    `max`, `+`, `-`, `/2` — rounding, signed zeros, NaN and all): `queries_any_arithmetic` applies to it verbatim.  The
+    only thing Lean cannot see is inside `O`: `Float`'s comparisons are opaque to the logic, so the three transitivity
+    laws — which IEEE-754 guarantees for every pair of doubles — are a hypothesis; nothing is assumed about the
+    arithmetic, the zeros, NaN or `min`/`max`.  (Go's builtin `min`/`max` differ from core's on `(+0,-0)` and NaN; they
+    only enter the root rectangle of `Reorganize`, which the theorem does not constrain — that the Float instance
+    computes what Go computes is what area `quadfloat` checks.) -/
+theorem queries_float64 (O : OrdLaws Float) (bounds : Nat → Rect Float) (fuel : Nat) (k : Int)
+    (ops : List (Op (Rect Float))) (hops : ∀ op ∈ ops, OpOK bounds op) (p : Point Float) (q : Rect Float) :
+    let t := Tree.run fuel k ops
+    (ids (t.findContainsPoint p)).Perm ((specRun ops).filter (fun i => p.inRect (bounds i))) ∧
+    (ids (t.findIntersects q)).Perm ((specRun ops).filter (fun i => (bounds i).intersects q)) ∧
+    ((q.empty = false → q.x < q.right ∧ q.y < q.bottom) →
+      (ids (t.findContainsRect q)).Perm ((specRun ops).filter (fun i => (bounds i).contains q))) ∧
+    ((∀ i, (bounds i).empty = false → (bounds i).x < (bounds i).right ∧ (bounds i).y < (bounds i).bottom) →
+      (ids (t.findContainedByRect q)).Perm ((specRun ops).filter (fun i => q.contains (bounds i)))) :=
+  queries_any_arithmetic O halfF64 bounds fuel k ops hops p q
+
+/-- non-vacuity of `QT.OrdLaws`: the integers and the machine integers satisfy it (for `Float` it is IEEE-754, outside
+    the logic) -/
+example : OrdLaws Int ∧ OrdLaws Int64 := ⟨ordLawsInt, ordLawsInt64⟩
+
 /-- **Go's `int` without the box**: for EVERY history over machine integers in which no stored rectangle and no query
     rectangle wraps (`QT.Safe`: `X+Width` and `Y+Height` stay within `int64`) — wherever in the range they lie, also when
     the union of the stored rectangles is wider than 2^63 and the root computed by `Reorganize` wraps — the four `Find*`
@@ -848,5 +874,50 @@ theorem int64_safe_linear_scan (bounds : Nat → Rect Int64) (hb : ∀ i, Safe (
     funext fun i => contains_toInt _ _ hq (hb i)
   rw [f1, f2, f3, f4]
   exact ⟨(abs_run bounds fuel k ops hops).1, size_run bounds fuel k ops hops, q1, q2, q3, q4⟩
+
+/-- **the driver's run-time fuel test is sound — for every instance of the rectangle operations** (no law, no box: the
+    IEEE-double histories with fuel 2300, the machine-integer histories outside `[-2^60, 2^60]²`): if `Tree.fuelOK`
+    holds after every prefix of a history — what the driver tests after every line before it answers anything but
+    `out-of-fuel` — then the fuel-0 fallback of the model was never taken and the tree is the tree of every larger fuel,
+    i.e. of the unbounded recursion `insert → splitIfNeeded → insert` of the Go code.  (Insertion never makes a tree
+    shallower and the fallback can only be reached `fuel` levels down, so a result shallower than the fuel was computed
+    without it.)  This turns the comment on `Tree.fuelOK` into a theorem; where a fuel BOUND is proved
+    (`fuel_suffices_int_log`, `fuel_suffices_rat`, `int64_fuel_suffices`) the hypothesis is discharged a priori. -/
+theorem fuel_test_sound {R P : Type} [RectOps R P] (f j : Nat) (k : Int) (ops : List (Op R))
+    (h : ∀ n, (Tree.run f k (ops.take n)).fuelOK f = true) : Tree.run f k ops = Tree.run (f + j) k ops :=
+  Tree.run_sound f j k ops h
+
+/-- the test can fail and then the fuel matters (CONTRAST): more than `Threshold` unit squares on one cell of an 8×8
+    root (history built from the repository's `MinQuadTreeThreshold`, as in `contract_needed`) — with fuel 1 the model
+    stops subdividing after one level and `fuelOK` reports it; with fuel 5 the tree is 3 deep and the test passes -/
+theorem fuel_test_contrast :
+    let k : Int := Facts.quadtree_MinQuadTreeThreshold
+    let T : Nat := (Tree.empty k : QT.Tree (Rect Int)).thr
+    let ops : List (Op (Rect Int)) := [Op.insert ⟨0, ⟨0, 0, 8, 8⟩⟩, Op.reorganize] ++
+      (List.range (T + 1)).map (fun i => Op.insert ⟨i + 1, ⟨1, 1, 1, 1⟩⟩)
+    let d : Nat → Nat := fun f => match (Tree.run f k ops).root with | some r => r.depth | none => 0
+    (Tree.run 1 k ops).fuelOK 1 = false ∧ d 1 = 1 ∧ d 5 = 3 ∧ (Tree.run 5 k ops).fuelOK 5 = true := by
+  decide
+
+/-! non-vacuity of the box hypotheses of the fuel theorems and of `QT.DBounds` (an `Empty` object is allowed) -/
+example : ∀ op ∈ ([Op.insert ⟨1, ⟨0, 0, 4, 4⟩⟩, Op.insert ⟨2, ⟨3, 3, 0, 5⟩⟩, Op.remove 1 ⟨0, 0, 4, 4⟩] : List (Op (Rect Int))),
+    InBox ⟨-8, -8, 16, 16⟩ op := by
+  intro op h
+  simp only [List.mem_cons, List.not_mem_nil, or_false] at h
+  rcases h with h | h | h <;> subst h
+  · exact Or.inr (by decide)
+  · exact Or.inl (by decide)
+  · trivial
+
+example : ∀ op ∈ ([Op.insert ⟨1, ⟨0, 0, 1/2, 1/2⟩⟩, Op.reorganize] : List (Op (Rect Rat))),
+    InBoxQ (1/4) ⟨-8, -8, 16, 16⟩ op := by
+  intro op h
+  simp only [List.mem_cons, List.not_mem_nil, or_false] at h
+  rcases h with h | h <;> subst h
+  · exact Or.inr ⟨by norm_num [Rect.contains, Rect.empty, Rect.right, Rect.bottom], by norm_num⟩
+  · trivial
+
+example : DBounds (⟨3, 3, 0, 5⟩ : Rect Int64) ∧ DBounds (⟨3, 3, 2, 5⟩ : Rect Int64) :=
+  ⟨Or.inl (by decide), Or.inr (by decide)⟩
 
 end C07
